@@ -194,7 +194,7 @@ fn gen_history(t: &mut Tape, rng: &mut Rng, ncommits: usize) -> History {
             s.extend_from_slice(format!("from :{ci}\n").as_bytes());
         }
         for _ in 0..t.range(1, 4) {
-            let op = if files.is_empty() { 0 } else { t.weighted(&[3, 8, 1, 1]) };
+            let op = if files.is_empty() { 0 } else { t.weighted(&[3, 8, 1, 2]) };
             match op {
                 0 => {
                     let pi = t.below(PATHS.len());
@@ -235,15 +235,30 @@ fn gen_history(t: &mut Tape, rng: &mut Rng, ncommits: usize) -> History {
                 _ => {
                     if many.is_empty() {
                         let n = t.range(15, 45);
+                        // the files are variations of three templates, so that many objects pick the same delta base and the
+                        // delta trees branch (several children per base, each with descendants of its own once the files evolve)
+                        let templates: Vec<Vec<u8>> = (0..3)
+                            .map(|_| {
+                                let l = 300 + rng.below(2500);
+                                text_lines(rng, l)
+                            })
+                            .collect();
                         for i in 0..n {
-                            let clen = 20 + rng.below(200);
-                            let content = text_lines(rng, clen);
+                            let mut content = templates[i % 3].clone();
+                            for _ in 0..1 + rng.below(3) {
+                                let pos = rng.below(content.len());
+                                let k = 1 + rng.below(8);
+                            let r = rng.fill(k);
+                                let end = (pos + r.len()).min(content.len());
+                                content[pos..end].copy_from_slice(&r[..end - pos]);
+                            }
+                            content.extend_from_slice(format!("file {i}\n").as_bytes());
                             s.extend_from_slice(format!("M 100644 inline many/f{i:02}.txt\n").as_bytes());
                             put_data(&mut s, &content);
                             many.push(content);
                         }
                     } else {
-                        for _ in 0..t.range(1, 3) {
+                        for _ in 0..t.range(2, 8) {
                             let i = t.below(many.len());
                             let content = mutate(t, rng, &many[i]);
                             s.extend_from_slice(format!("M 100644 inline many/f{i:02}.txt\n").as_bytes());
@@ -474,7 +489,7 @@ fn show_index(git: &Git, idx: &[u8]) -> Result<Vec<(u64, Id, u32)>, String> {
 }
 
 /// delta depth per entry of a stored bundle (labels / non-trivial rule only)
-fn max_delta_depth(bundle: &gix_pack::Bundle) -> Result<(u32, usize), String> {
+fn max_delta_depth(bundle: &gix_pack::Bundle) -> Result<(u32, usize, bool), String> {
     use gix_pack::data::entry::Header;
     let mut base_of: BTreeMap<u64, Option<u64>> = BTreeMap::new();
     let mut by_id: BTreeMap<Id, u64> = BTreeMap::new();
@@ -497,6 +512,15 @@ fn max_delta_depth(bundle: &gix_pack::Bundle) -> Result<(u32, usize), String> {
         }
         base_of.insert(*ofs, base);
     }
+    // a base with two or more delta children that have delta children themselves: the situation in which the index
+    // writer's traversal hands work to additional threads
+    let mut kids: BTreeMap<u64, Vec<u64>> = BTreeMap::new();
+    for (ofs, base) in &base_of {
+        if let Some(b) = base {
+            kids.entry(*b).or_default().push(*ofs);
+        }
+    }
+    let branching = kids.values().any(|ch| ch.iter().filter(|c| kids.contains_key(c)).count() >= 2);
     let mut max = 0;
     for ofs in base_of.keys() {
         let mut d = 0;
@@ -510,7 +534,7 @@ fn max_delta_depth(bundle: &gix_pack::Bundle) -> Result<(u32, usize), String> {
         }
         max = max.max(d);
     }
-    Ok((max, ndeltas))
+    Ok((max, ndeltas, branching))
 }
 
 /// Header classes with their own signature (decided by the `header-fields` sub-check).
@@ -530,6 +554,70 @@ fn known_header_class(stream: &[u8]) -> Option<&'static str> {
     } else {
         None
     }
+}
+
+/// Mirror of the sequential entry parse, up to the first entry whose header declares a size of 8 GiB or more (the entry
+/// reader pre-allocates by that size when entries are kept, i.e. whenever a base lookup is given): such streams are
+/// evaluated in a child process. Returns the declared size.
+fn first_huge_entry_size(stream: &[u8]) -> Option<u64> {
+    const HUGE: u64 = 1 << 33;
+    if stream.len() < 12 || &stream[..4] != b"PACK" {
+        return None;
+    }
+    let count = u32::from_be_bytes([stream[8], stream[9], stream[10], stream[11]]);
+    let mut pos = 12usize;
+    let mut sink = vec![0u8; 64 * 1024];
+    for _ in 0..count {
+        let mut c = *stream.get(pos)?;
+        pos += 1;
+        let ty = (c >> 4) & 7;
+        let mut size = u64::from(c & 15);
+        let mut shift = 4u32;
+        while c & 0x80 != 0 {
+            c = *stream.get(pos)?;
+            pos += 1;
+            if shift >= 64 {
+                return Some(u64::MAX);
+            }
+            size = size.saturating_add(u64::from(c & 0x7f).checked_shl(shift).unwrap_or(u64::MAX));
+            shift += 7;
+        }
+        if size >= HUGE {
+            return Some(size);
+        }
+        match ty {
+            1..=4 => {}
+            6 => loop {
+                let b = *stream.get(pos)?;
+                pos += 1;
+                if b & 0x80 == 0 {
+                    break;
+                }
+            },
+            7 => pos += 20,
+            _ => return None,
+        }
+        // skip the zlib stream
+        let mut d = flate2::Decompress::new(true);
+        loop {
+            let input = stream.get(pos + d.total_in() as usize..)?;
+            let before = (d.total_in(), d.total_out());
+            match d.decompress(input, &mut sink, flate2::FlushDecompress::None) {
+                Ok(flate2::Status::StreamEnd) => break,
+                Ok(_) => {
+                    if (d.total_in(), d.total_out()) == before {
+                        return None;
+                    }
+                }
+                Err(_) => return None,
+            }
+        }
+        if d.total_out() != size {
+            return None;
+        }
+        pos += d.total_in() as usize;
+    }
+    None
 }
 
 const THREAD_LIMITS: [usize; 6] = [1, 2, 3, 4, 8, 16];
@@ -579,7 +667,34 @@ fn gen_fault(t: &mut Tape, pack: &[u8], offsets: &[u64]) -> (Fault, &'static str
             offsets[t.below(offsets.len())] as usize
         }
     };
-    match t.weighted(&[2, 2, 2, 2, 2, 1, 2, 2, 3, 3, 2, 2, 2, 1, 1]) {
+    // entries that are ofs-deltas, with the position of their distance varint
+    let ofs_deltas: Vec<usize> = offsets
+        .iter()
+        .filter_map(|o| {
+            let mut p = *o as usize;
+            let first = *pack.get(p)?;
+            if (first >> 4) & 7 != 6 {
+                return None;
+            }
+            while *pack.get(p)? & 0x80 != 0 {
+                p += 1;
+            }
+            Some(p + 1)
+        })
+        .collect();
+    match t.weighted(&[2, 2, 2, 2, 2, 1, 2, 2, 3, 3, 2, 2, 2, 1, 1, 3]) {
+        15 if !ofs_deltas.is_empty() => {
+            // the base distance of an ofs-delta: far too large, slightly off, or zero
+            let p = ofs_deltas[t.below(ofs_deltas.len())].min(trailer - 1);
+            let bytes: Vec<u8> = match t.weighted(&[3, 2, 2, 1]) {
+                0 => vec![0xff, 0xff, 0xff, 0x7f],
+                1 => vec![pack[p] ^ 0x01],
+                2 => vec![pack[p] ^ 0x40],
+                _ => vec![0x00],
+            };
+            (Fault::Overwrite(p, bytes), "ofs-distance-field")
+        }
+        15 => (Fault::Truncate(trailer), "truncate-before-trailer"),
         0 => (Fault::Truncate(t.range(0, 11)), "truncate-in-header"),
         1 => (Fault::Truncate(12), "truncate-after-header"),
         2 => {
@@ -688,7 +803,7 @@ pub fn main() {
         probe_main();
     }
     let mut ck = Check::new("C10", "exploration");
-    ck.rule("world = generated history of 1..40 commits (14 paths incl. nested dirs/exec/symlink, a 15..45-file directory, a hot file collecting many versions, annotated tags) in a sender repo; receiver holds the first `base` commits (loose or repacked); stream = git pack-objects --stdout --revs {full clone | incremental complete | --thin against ^base} --delta-base-offset with depth in 0..50, window in 0..20, pack.compression in {default,0,1,9}. index: all thread limits {1,2,3,4,8,16}, lookup None or receiver odb. faults: 1..60 per world from 15 classes (truncations at header/entry/trailer positions, bit flips in header/entry header/data/trailer, multi-byte, 0x00/0xff/0x80 runs, version field, object-count field) x generated thread limit. Non-trivial (index): stored pack has a delta chain of depth >= 2 (threads > 1 are always exercised; thin is labelled). Non-trivial (faults): the fault lies behind the 12-byte header. header-fields: one header fault (8 version values, 10 count values, 96 bit flips) on a 1..3-commit full pack; always non-trivial. Header classes version==3, count==0 and count>=2^29 are decided in header-fields only and skipped in faults. Distinct by hash of import stream, pack options and faults.");
+    ck.rule("world = generated history of 1..40 commits (14 paths incl. nested dirs/exec/symlink, a 15..45-file directory, a hot file collecting many versions, annotated tags) in a sender repo; receiver holds the first `base` commits (loose or repacked); stream = git pack-objects --stdout --revs {full clone | incremental complete | --thin against ^base} --delta-base-offset with depth in 0..50, window in 0..20, pack.compression in {default,0,1,9}. index: all thread limits {1,2,3,4,8,16}, lookup None or receiver odb. faults: 1..60 per world from 16 classes (truncations at header/entry/trailer positions, bit flips in header/entry header/data/trailer, multi-byte, 0x00/0xff/0x80 runs, version field, object-count field, ofs-delta distance field) x generated thread limit. Non-trivial (index): stored pack has a delta chain of depth >= 2 (threads > 1 are always exercised; thin is labelled). Non-trivial (faults): the fault lies behind the 12-byte header. header-fields: one header fault (8 version values, 10 count values, 96 bit flips) on a 1..3-commit full pack; always non-trivial. Header classes version==3, count==0 and count>=2^29 are decided in header-fields only and skipped in faults; faulted streams in which an entry header declares >= 8 GiB are evaluated in a child process. Distinct by hash of import stream, pack options and faults.");
     ck.assume(&format!("oracle: {} (fast-import, pack-objects, index-pack [--fix-thin], show-index, cat-file --batch, fsck)", Git::version()));
     ck.assume("streams use --delta-base-offset, as every client that advertises ofs-delta receives them; complete packs with in-pack REF_DELTA entries are documented as unsupported by index::File::write_data_iter_to_stream and are not generated");
     ck.assume("a faulted stream must be rejected unless real git index-pack accepts the very same bytes");
@@ -825,7 +940,8 @@ pub fn main() {
                     return;
                 }
             };
-            let (maxd, ndeltas) = infra!(c, max_delta_depth(&b), "delta structure");
+            let (maxd, ndeltas, branching) = infra!(c, max_delta_depth(&b), "delta structure");
+            c.label_if(branching, "branching-delta-tree");
             c.label(match maxd {
                 0 => "max-depth-0",
                 1 => "max-depth-1",
@@ -995,7 +1111,28 @@ pub fn main() {
             c.nontrivial(behind_header);
             let dir = w.world.scratch.join(format!("fault-{i}"));
             infra!(c, std::fs::create_dir_all(&dir), "mkdir");
-            let res = infra!(c, write_pack(&bad, &dir, (spec.thin || i % 2 == 0).then_some(w.receiver_objects.as_path()), *threads), "open lookup odb");
+            let lookup = (spec.thin || i % 2 == 0).then_some(w.receiver_objects.as_path());
+            let res: Result<String, String> = if let Some(size) = first_huge_entry_size(&bad) {
+                if vp::fuzz::active() {
+                    continue;
+                }
+                c.label("huge-entry-size");
+                match infra!(c, write_pack_in_child(&bad, &w.world.scratch.path, &dir, lookup, *threads), "probe process") {
+                    Ok(r) => r,
+                    Err((kind, msg)) => {
+                        c.fail_sig(
+                            if kind == "child-aborts" { "huge-entry-size-aborts" } else { "huge-entry-size-panics" },
+                            format!(
+                                "{label} {fault:?} (thread_limit {threads}, lookup {}) makes an entry header declare {size} bytes: {msg}",
+                                lookup.is_some()
+                            ),
+                        );
+                        return;
+                    }
+                }
+            } else {
+                infra!(c, write_pack(&bad, &dir, lookup, *threads), "open lookup odb").map(|o| format!("{:?}", o.index))
+            };
             let left = list_recursive(&dir);
             match res {
                 Err(_) => {
@@ -1015,9 +1152,9 @@ pub fn main() {
                         c,
                         "corrupt-stream-accepted",
                         git_ok,
-                        "{label} {fault:?} (thread_limit {threads}) of a {} byte stream with {nobj_in} objects was accepted ({:?}, files {left:?}); git index-pack rejects these bytes",
+                        "{label} {fault:?} (thread_limit {threads}) of a {} byte stream with {nobj_in} objects was accepted ({}, files {left:?}); git index-pack rejects these bytes",
                         pack.len(),
-                        outcome.index
+                        outcome
                     );
                     c.label("git-accepts-faulted-stream");
                 }
@@ -1070,17 +1207,25 @@ pub fn main() {
         let dir = w.world.scratch.join("fault");
         infra!(c, std::fs::create_dir_all(&dir), "mkdir");
         let lookup = with_lookup.then_some(w.receiver_objects.as_path());
-        let res: Result<String, String> = if known_header_class(&bad) == Some("huge-object-count") {
+        let huge_count = known_header_class(&bad) == Some("huge-object-count");
+        // a wrong count also makes the reader take the trailer for an entry header, which may declare any size
+        let huge_entry = !huge_count && first_huge_entry_size(&bad).is_some();
+        let res: Result<String, String> = if huge_count || huge_entry {
             if vp::fuzz::active() {
                 c.discard();
                 return;
             }
-            c.label("huge-object-count");
+            c.label(if huge_count { "huge-object-count" } else { "huge-entry-size" });
             match infra!(c, write_pack_in_child(&bad, &w.world.scratch.path, &dir, lookup, threads), "probe process") {
                 Ok(r) => r,
                 Err((kind, msg)) => {
                     c.fail_sig(
-                        if kind == "child-aborts" { "huge-object-count-aborts" } else { "huge-object-count-panics" },
+                        match (huge_count, kind == "child-aborts") {
+                            (true, true) => "huge-object-count-aborts",
+                            (true, false) => "huge-object-count-panics",
+                            (false, true) => "huge-entry-size-aborts",
+                            (false, false) => "huge-entry-size-panics",
+                        },
                         format!("{label} {fault:?} (thread_limit {threads}, lookup {with_lookup}) on a {} byte stream with {n} objects: {msg}", pack.len()),
                     );
                     return;
